@@ -549,3 +549,69 @@ def arm_of(F, fn, enum, variant, sub=None):
             if vp and last(vp) == variant:
                 out.append((arm, alt))
     return out
+
+
+# --------------------------------------------------------------------------- structure-preserving maps
+
+def structure_preserving(F, rep, rule, fn, enum, recursive, carrier="TyID"):
+    """For a function that rebuilds values of `enum` (a copy / instantiation): every arm over variant V must build
+    the *same* variant V, every payload holding a `carrier` (type-graph edge) must be passed through the recursive
+    function `recursive`, and every other payload must be the matched one.  (Sibling rows of one table must agree.)"""
+    adt = F.adt(enum)
+    vfields = {norm_path(v["path"]): v for v in adt["variants"]}
+    body = fn_body(fn)
+    n = 0
+    for m in nodes(body, "Match"):
+        if not ty_is(m.get("scrut_ty", ""), enum):
+            continue
+        for arm in m["arms"]:
+            b = peel(arm["body"])
+            # arms may return a tuple (value, span) etc.: find the constructor call / path of `enum` in the arm body
+            ctors = [c for c in nodes(b) if (c.get("k") == "Call" and (callee(c) or "").startswith(enum + "::")) or
+                     (c.get("k") == "Path" and c.get("res") == "Def" and norm_path(c.get("path", "")).startswith(enum + "::") and c.get("dk", "").startswith("Ctor"))]
+            for alt in pat_alternatives(arm["pat"]):
+                vp = pat_variant(alt)
+                if not vp or vp not in vfields:
+                    continue
+                v = vfields[vp]
+                key = "%s|%s::%s" % (last(fn["_path"]), last(enum), v["name"])
+                binds = {}
+                p = pat_strip(alt)
+                if p.get("k") == "TupleStruct":
+                    for i, sub in enumerate(p["pats"]):
+                        binds[i] = {x["hid"] for x in pat_bindings(sub)}
+                if not v["fields"]:
+                    # payload-free variants: `X | Y | Z => ty` (the matched value itself) or the same path
+                    same = [c for c in ctors if c.get("k") == "Path" and norm_path(c["path"]) == vp]
+                    passes_through = b.get("k") == "Path" and b.get("res") == "Local"
+                    n += 1
+                    rep.ob(rule, key, bool(same) or passes_through or len(pat_alternatives(arm["pat"])) > 1 and passes_through,
+                           "%s maps %s to %s" % (last(fn["_path"]), v["name"], "itself" if (same or passes_through) else pp(b)[:40]), line_of(arm))
+                    continue
+                calls = [c for c in ctors if c.get("k") == "Call"]
+                if len(calls) != 1:
+                    continue  # not a rebuilding arm (e.g. an error arm)
+                c = calls[0]
+                n += 1
+                built = last(callee(c))
+                if built != v["name"]:
+                    rep.ob(rule, key, False, "%s rebuilds %s::%s as %s::%s: the copy does not preserve the constructor" % (
+                        last(fn["_path"]), last(enum), v["name"], last(enum), built), line_of(arm))
+                    continue
+                bad = []
+                for i, fld in enumerate(v["fields"]):
+                    if i >= len(c["args"]):
+                        bad.append("payload %d missing" % i)
+                        continue
+                    a = c["args"][i]
+                    mentions = Flow.mentions(a, binds.get(i, set()))
+                    if carrier in fld["ty"]:
+                        through = any(callee(x) == recursive for x in nodes(a) if x.get("k") in ("Call", "MethodCall"))
+                        if not (through and mentions):
+                            bad.append("payload %d (%s) is not passed through %s" % (i, fld["ty"].split("::")[-1], last(recursive)))
+                    elif not mentions:
+                        bad.append("payload %d is not the matched one" % i)
+                rep.ob(rule, key, not bad, "%s rebuilds %s::%s with %s" % (
+                    last(fn["_path"]), last(enum), v["name"], "every type edge remapped through %s" % last(recursive) if not bad else "; ".join(bad)),
+                    line_of(arm))
+    return n
